@@ -191,7 +191,8 @@ PROPS['C08'] = dict(
     assumptions=['create_instance is verified over the lexical view of its text (lines of blank-separated tokens; a colon is deleted by the reader; T7): header with the counts, one numbered line per agent carrying exactly the numbers / bracketed list handed over, second-side lists only when given, blank line, parameter block; generate_instances writes exactly numberinstances files, write number u to <outputdirectory>/<u>.txt opened for writing, each holding the text create_instance returned for that iteration with the requested counts in its header (ghost log of file writes, T8); the content of the parameter block (create_instance_info) is covered by the bounded stand-in only', 'generate_instances is verified for argument records satisfying the postconditions of Instance_options_parser.parse (C15)'])
 GETTER_HELPERS = ['_get_max_rank', '_get_cost', '_get_cost_sq', '_get_degree', '_get_profile', '_get_lec_abs_diffs', '_get_max_lec_abs_diff', '_get_sum_lec_abs_diff',
                   '_get_matching_string', '_get_matching_size', '_get_pair_assignments', '_get_pair_assignments_with_none', 'get_results', 'get_debug', '_pairs_string',
-                  'check_stability', 'get_num_assignments_projects', 'get_num_assignments_lecturers', 'get_worst_rank_projects', 'get_worst_rank_lecturers']
+                  'check_stability', 'get_num_assignments_projects', 'get_num_assignments_lecturers', 'get_worst_rank_projects', 'get_worst_rank_lecturers',
+                  '_get_detailed_student_info', '_get_profile_string']
 PROPS['C18'] = dict(
     title='Result getters are read-only and re-solving is reproducible',
     functions=[(MOD + f, {'force_pure': True}) for f in GETTER_HELPERS] + [(BF + 'get_results', {'force_pure': True})] + [('solver:Solver.' + f, {'force_pure': True}) for f in ('get_results_short', 'get_results_long', 'get_debug')]
